@@ -32,35 +32,48 @@ ID = "C18"
 LEVEL = "proof"
 ENGINES = ["lean-model", "pyextract", "purediff"]
 LEVEL_TEXT = (
-    "Lean theorems, no size/depth bounds: for all outcome lists and warnings (allowed_iff, status_iff_denied, "
-    "error_priority incl. first-among-equals, status_code_message, warnings_order, prio_strict_order); for all "
-    "handlers/causes (gate_spec, select_spec); for ALL mapping bodies and ALL patches, without any well-typedness or "
-    "key-uniqueness guard (code after the repair 74dc18a): apply_total (no exception) and fidelity (the mutated body "
-    "has exactly the leaves of the RFC 7386 merge at every path = equality up to key order and the presence of empty "
-    "mappings; dropEmpty_leafEq ties that relation to the drop-empty normal form); the former defects F4 / C18-F2 are "
-    "now positive instances (mapping_over_scalar_replaces, empty_mapping_over_scalar_replaces); the only remaining "
-    "guard 'the body is a mapping' is shown necessary (apply_nonmapping_root_raises). The clause 'handlers match the "
-    "operation' is FALSE of the code: negation proved with a witness (gate_ignores_operations_witness), replayed on "
-    "the real code on every run, open finding C18-F3. jsonpatch.from_diff is outside the model (contract only); two "
-    "deviations from its contract are open findings C18-F4, C18-F5. Model tied by translator (T) and differential runs (D).")
-TIE = ("T (sort key of build_response, class hierarchy of AdmissionError, iter_handlers gate, _matches_subresource, "
-       "its use in match(): AST -> Lean, re-proved equal; other statements of build_response anchored verbatim) + "
-       "D (real Patch._apply_patch + fns, Patch.as_json_patch through an independent RFC 6902 applier, "
-       "build_response, serve_admission_request vs the Lean model; Lean mergePatch vs Python RFC 7386 reference).")
+    "Lean theorems, no size/depth bounds. Response: allowed_iff, status_iff_denied, error_priority (minimal sort key, "
+    "first among equals), prio_strict_order, warnings_order, patch_field_spec (patch/patchType present exactly when "
+    "there are operations, independent of the outcomes, i.e. also on denial). Selection: gate_spec, select_spec, "
+    "hinted_only_that_handler; the clause 'handlers match the operation' is FALSE of the code "
+    "(gate_ignores_operations_witness, open finding C18-F3) and proved as gate_spec_partial under the exact guard "
+    "'no declared operations, or the review carries the handler's webhook id and its sender honours that webhook's "
+    "rules' (rules[].operations tied to build_webhooks by the translator and the D-tie). Whole review: serve_allowed_iff "
+    "(allowed iff no SELECTED handler raised), serve_warnings_order. Mutation, for ALL mapping bodies and ALL patches "
+    "(code after 74dc18a): apply_total, fidelity (leaves of the mutated body = leaves of the RFC 7386 merge at every "
+    "path, i.e. equality up to key order and empty mappings; dropEmpty_leafEq), fidelity_fns (with the transformation "
+    "functions block_deletion/allow_deletion applied in order, whenever code path and reference path both return), and "
+    "returned_patch_fidelity: the patch in the RESPONSE, applied to the reviewed object, yields the reference object "
+    "up to empty mappings — with jsonpatch's contract (apply a (from_diff a b) = b, apply a [] = a) as explicit "
+    "hypotheses; jsonpatch 1.33 breaks that contract on the inputs of the open findings C18-F4, C18-F5. "
+    "apply_nonmapping_root_raises shows the one remaining guard (the body is a mapping) is needed. Not characterised by a "
+    "theorem: WHEN the two framework functions raise (ill-typed metadata/finalizers; compared by the D-tie as error "
+    "tags); failure paths of serve_admission_request before the handlers run (missing data, unknown/ambiguous resource).")
+TIE = ("T (sort key of build_response, class hierarchy of AdmissionError, iter_handlers gate, _matches_subresource and "
+       "its use in match(), rules[].operations of build_webhooks: AST -> Lean, re-proved equal; the allowed/errors/"
+       "status/warnings/patch statements of build_response, Patch.__bool__ and the falsy-patch shortcut of "
+       "as_json_patch, the handler id in clientConfig anchored verbatim) + D (real Patch._apply_patch + fns; "
+       "Patch.as_json_patch through an independent RFC 6902 applier; build_response incl. patch/patchType; the whole "
+       "serve_admission_request vs the model's `serve` with the real from_diff output as the diff parameter; "
+       "build_webhooks rule operations; Lean mergePatch vs the Python RFC 7386 reference).")
 THEOREMS = [
     ("Kopf.Props.C18", "Kopf.C18.allowed_iff"),
     ("Kopf.Props.C18", "Kopf.C18.status_iff_denied"),
     ("Kopf.Props.C18", "Kopf.C18.error_priority"),
-    ("Kopf.Props.C18", "Kopf.C18.status_code_message"),
-    ("Kopf.Props.C18", "Kopf.C18.warnings_order"),
     ("Kopf.Props.C18", "Kopf.C18.prio_strict_order"),
+    ("Kopf.Props.C18", "Kopf.C18.warnings_order"),
+    ("Kopf.Props.C18", "Kopf.C18.patch_field_spec"),
     ("Kopf.Props.C18", "Kopf.C18.gate_spec"),
     ("Kopf.Props.C18", "Kopf.C18.select_spec"),
     ("Kopf.Props.C18", "Kopf.C18.gate_ignores_operations_witness"),
+    ("Kopf.Props.C18", "Kopf.C18.gate_spec_partial"),
+    ("Kopf.Props.C18", "Kopf.C18.hinted_only_that_handler"),
     ("Kopf.Props.C18", "Kopf.C18.apply_total"),
     ("Kopf.Props.C18", "Kopf.C18.fidelity"),
-    ("Kopf.Props.C18", "Kopf.C18.mapping_over_scalar_replaces"),
-    ("Kopf.Props.C18", "Kopf.C18.empty_mapping_over_scalar_replaces"),
+    ("Kopf.Props.C18", "Kopf.C18.fidelity_fns"),
+    ("Kopf.Props.C18", "Kopf.C18.returned_patch_fidelity"),
+    ("Kopf.Props.C18", "Kopf.C18.serve_allowed_iff"),
+    ("Kopf.Props.C18", "Kopf.C18.serve_warnings_order"),
     ("Kopf.Props.C18", "Kopf.C18.apply_nonmapping_root_raises"),
     ("Kopf.Props.C18", "Kopf.C18.dropEmpty_leafEq"),
 ]
@@ -70,6 +83,7 @@ TIE_THEOREMS = [
     ("Kopf.Tie.C18", "Kopf.C18.Tie.gate_eq"),
     ("Kopf.Tie.C18", "Kopf.C18.Tie.subresource_eq"),
     ("Kopf.Tie.C18", "Kopf.C18.Tie.match_has_subresource"),
+    ("Kopf.Tie.C18", "Kopf.C18.Tie.managed_rule_ops_eq"),
 ]
 RULE = ("three seeded streams: (patch) k8s-shaped and random bodies, patch derived key-by-key from the body "
         "(skip/delete/overwrite/type change scalar<->mapping/list/nested merge/empty mapping/leafless mapping/"
@@ -77,7 +91,8 @@ RULE = ("three seeded streams: (patch) k8s-shaped and random bodies, patch deriv
         "allow_deletion}; (serve) registry of 1-4 webhook handlers (reason, operations, subresource incl. '*', "
         "filters, patch piece, fns, warnings, raised error class/code/message) x request (operation incl. DELETE/"
         "CONNECT/None, subresource, webhook and reason hints); (response) real build_response over outcome lists "
-        "of length 0-6. A case is distinct/non-trivial by its (stream, feature tags, result class) abstraction.")
+        "of length 0-6 with and without a JSON patch (incl. patch on denial); every serve case is also pushed as a whole "
+        "through the model's `serve`, and its handlers through build_webhooks. A case is distinct/non-trivial by its (stream, feature tags, result class) abstraction.")
 TRUSTED = [
     "pyextract atom vocabulary for build_response's sort key, WebhooksRegistry.iter_handlers, _matches_subresource",
     "jsonpatch.from_diff by its contract apply(a, from_diff(a, b)) == b (checked on every case through the "
@@ -86,6 +101,14 @@ TRUSTED = [
     "differential-tested against the Python one on every patch case)",
 ]
 ASSUMPTIONS = [
+    "returned_patch_fidelity assumes jsonpatch's contract as a hypothesis; it is checked on every generated case through "
+    "an independent RFC 6902 applier, and is known to fail on the inputs of C18-F4 / C18-F5",
+    "a handler's effect on the shared patch object is taken as the final patch content and fns (handlers are arbitrary "
+    "code); the model accounts per handler for the warnings it appends and the exception it raises",
+    "serve_admission_request's failures before any handler runs (MissingDataError, Unknown/AmbiguousResourceError) and "
+    "the conditions under which block_deletion/allow_deletion raise are not property clauses: oracle/tie only",
+    "gate_spec_partial's routing hypothesis is Kubernetes' behaviour for the managed configuration (rules per webhook, "
+    "handler id in the webhook URL); with a manually written configuration it does not hold (C18-F3)",
     "JSON numbers are integers in generated cases (no floats)",
     "the other filters of match() (selector, labels, annotations, fields, when) are C15's subject: an opaque boolean here",
     "handler ids are unique inside one registry (outcomes is a dict keyed by id)",
@@ -128,6 +151,11 @@ STATUS_ANCHOR = ("if errors:\n    response['response']['status'] = reviews.Respo
                  "message=str(errors[0]) or repr(errors[0]), "
                  "code=(errors[0].code if isinstance(errors[0], AdmissionError) else None) or 500)")
 WARNINGS_ANCHOR = "if warnings:\n    response['response']['warnings'] = [str(warning) for warning in warnings]"
+PATCH_ANCHOR = ("if jsonpatch:\n    encoded_patch: str = base64.b64encode(json.dumps(jsonpatch).encode('utf-8')).decode('ascii')\n"
+                "    response['response']['patch'] = encoded_patch\n    response['response']['patchType'] = 'JSONPatch'")
+FALSY_PATCH_ANCHORS = {"Patch.__bool__": "return len(self) > 0 or bool(self.fns)",
+                       "Patch.as_json_patch": "if not self:\n    return []"}
+CLIENT_CONFIG_ANCHOR = "_inject_handler_id(client_config, handler.id)"
 
 
 def _int_chain(e: ast.expr, tr: pyextract.BoolTranslator) -> str:
@@ -182,7 +210,7 @@ def extract(ctx: Ctx) -> None:
     key_body = _int_chain(lam.body, pyextract.BoolTranslator(KEY_VOCAB))
     # -- anchors of the rest of build_response (verbatim shapes; a change is a broken correspondence)
     texts = [pyextract.norm(st) for st in pyextract.body_without_docstring(br)]
-    for anchor in RESPONSE_ANCHORS + [STATUS_ANCHOR, WARNINGS_ANCHOR]:
+    for anchor in RESPONSE_ANCHORS + [STATUS_ANCHOR, WARNINGS_ANCHOR, PATCH_ANCHOR]:
         if anchor not in texts:
             raise ExtractError(f"build_response: statement changed or missing: `{anchor[:90]}…`")
     if texts.index(RESPONSE_ANCHORS[1]) > texts.index(pyextract.norm(ast.Expr(call))) or \
@@ -218,7 +246,29 @@ def extract(ctx: Ctx) -> None:
     conj = [pyextract.norm(v) for v in rets[0].value.values]
     if "_matches_subresource(handler, cause)" not in conj:
         raise ExtractError("registries.match no longer includes _matches_subresource(handler, cause)")
-    out = pyextract.HEADER.format(src="kopf/_core/engines/admission.py, kopf/_core/intents/registries.py")
+    # -- the falsy-patch shortcut of as_json_patch
+    ptree = pyextract.parse_file(ctx.repo / "kopf/_cogs/structs/patches.py")
+    for qual, anchor in FALSY_PATCH_ANCHORS.items():
+        fn = pyextract.find_def(ptree, qual)
+        if anchor not in [pyextract.norm(st) for st in pyextract.body_without_docstring(fn)]:  # type: ignore[arg-type]
+            raise ExtractError(f"{qual}: statement changed or missing: `{anchor}`")
+    # -- the managed webhook configuration: rules[].operations and the id in the client config
+    bw = pyextract.find_def(atree, "build_webhooks")
+    ops_exprs = [v for n in ast.walk(bw) if isinstance(n, ast.Dict)
+                 for k, v in zip(n.keys, n.values) if isinstance(k, ast.Constant) and k.value == "operations"]
+    cc_exprs = [v for n in ast.walk(bw) if isinstance(n, ast.Dict)
+                for k, v in zip(n.keys, n.values) if isinstance(k, ast.Constant) and k.value == "clientConfig"]
+    if len(ops_exprs) != 1 or len(cc_exprs) != 1 or pyextract.norm(cc_exprs[0]) != CLIENT_CONFIG_ANCHOR:
+        raise ExtractError("build_webhooks: expected one 'operations' rule entry and the handler id injected into clientConfig")
+    e = ops_exprs[0]
+    if not (isinstance(e, ast.Call) and pyextract.norm(e.func) == "list" and len(e.args) == 1 and isinstance(e.args[0], ast.BoolOp)
+            and isinstance(e.args[0].op, ast.Or) and len(e.args[0].values) == 2
+            and pyextract.norm(e.args[0].values[0]) == "handler.operations"):
+        raise ExtractError(f"build_webhooks: rule operations are no longer `list(handler.operations or [...])`: `{pyextract.norm(e)}`")
+    default_ops = pyextract.literal(e.args[0].values[1])
+    if not (isinstance(default_ops, list) and all(isinstance(x, str) for x in default_ops)):
+        raise ExtractError("build_webhooks: the default rule operations are not a list of strings")
+    out = pyextract.HEADER.format(src="kopf/_core/engines/admission.py, kopf/_core/intents/registries.py, kopf/_cogs/structs/patches.py")
     out += "import Kopf.Model.C18_Admission\nnamespace Kopf.C18.Extracted\nopen Kopf.C18\n\n"
     out += "/-- the `isinstance` facts the sort key reads -/\nstructure Cls where\n  isAdmission : Bool\n  isPermanent : Bool\n  isTemporary : Bool\n\n"
     out += f"def key (a : Cls) : Nat :=\n  {key_body}\n\n"
@@ -226,6 +276,10 @@ def extract(ctx: Ctx) -> None:
     out += f"/-- `m` = `match(handler=handler, cause=cause)` -/\ndef gate (h : Handler) (c : Cause) (m : Bool) : Bool :=\n  {gate_body}\n\n"
     out += f"def matchesSubresource (h : Handler) (c : Cause) : Bool :=\n  {sub_body}\n\n"
     out += f"def matchConjuncts : List String := [{', '.join(pyextract.lean_str(c) for c in conj)}]\n\n"
+    dflt = "[" + ", ".join(pyextract.lean_str(x) for x in default_ops) + "]"
+    out += ("/-- `list(handler.operations or DEFAULT)`: a falsy collection (None or empty) gives the default -/\n"
+            f"def managedRuleOps (h : Handler) : List String :=\n  match h.operations with\n  | none => {dflt}\n"
+            f"  | some [] => {dflt}\n  | some ops => ops\n\n")
     out += "end Kopf.C18.Extracted\n"
     leanio.write_generated("Kopf/Extracted/C18.lean", out)
 
@@ -898,6 +952,18 @@ def eval_patch(env: dict, case: dict) -> Result:
     return res
 
 
+def _resp_view(r: dict) -> dict:
+    """the fields of the response payload the model has, with the patch decoded"""
+    ops = None
+    if "patch" in r:
+        try:
+            ops = json.loads(base64.b64decode(r["patch"]))
+        except Exception:
+            ops = "undecodable"
+    return {"allowed": r.get("allowed"), "status": r.get("status"), "warnings": r.get("warnings"),
+            "patch": ops, "patchType": r.get("patchType")}
+
+
 def eval_response(env: dict, case: dict) -> Result:
     res = Result()
     adm, ex = env["admission"], env["execution"]
@@ -918,13 +984,30 @@ def eval_response(env: dict, case: dict) -> Result:
                      {"site": "admission.build_response", "shape": "patch encoding"})
     elif "patch" in r:
         res.fail("a patch is returned although there is none", {"site": "admission.build_response", "shape": "patch encoding"})
-    impl = {"allowed": r.get("allowed"), "status": r.get("status"), "warnings": r.get("warnings")}
-    res.reqs.append(("response", ["C18.response", raised, case["warnings"]], ["ok", impl]))
+    impl = _resp_view(r)
+    res.reqs.append(("response", ["C18.response", raised, case["warnings"], case["jsonpatch"]], ["ok", impl]))
     res.tags = sorted({("err:" + e["kind"]) for e in raised if e} | ({"warnings"} if case["warnings"] else set())
                       | ({"empty-message"} if any(e and not e["str"] for e in raised) else set())
-                      | ({"falsy-code"} if any(e and e["kind"] == "admission" and not e["code"] for e in raised) else set()))
+                      | ({"falsy-code"} if any(e and e["kind"] == "admission" and not e["code"] for e in raised) else set())
+                      | ({"patch-on-denial"} if any(e is not None for e in raised) and case["jsonpatch"] else set())
+                      | ({"patch"} if case["jsonpatch"] else set()))
     res.result = "allowed" if r.get("allowed") else "denied"
     return res
+
+
+def _entries(env: dict, case: dict, raised: dict, labels_now: Any) -> list[dict]:
+    """every registered handler with its remaining-filters bit and what its invocation does"""
+    out = []
+    for h in case["handlers"]:
+        m = {"none": True, "when-true": True, "when-false": False, "other-resource": False,
+             "label-yes": isinstance(labels_now, dict) and labels_now.get("sel") == "yes"}[h["filter"]]
+        if h["id"] in raised:
+            err = errinfo(raised[h["id"]], env)
+        else:
+            err = errinfo(mk_exception(env, h["error"]), env) if h["error"] is not None else None
+        out.append({"handler": {"id": h["id"], "reason": h["reason"], "operations": h["operations"], "subresource": h["subresource"]},
+                    "m": m, "warnings": list(h["warnings"]), "error": err})
+    return out
 
 
 async def eval_serve(env: dict, case: dict) -> Result:
@@ -993,6 +1076,18 @@ async def eval_serve(env: dict, case: dict) -> Result:
         exc = e
     # ---- handler selection: oracle + gate tie
     labels_now = body.get("metadata", {}).get("labels", {}) if isinstance(body.get("metadata", {}), dict) else {}
+    cj_all = {"reason": case["reason"], "webhook": case["webhook"], "operation": op, "subresource": case["subresource"]}
+    # the managed configuration kopf would send to the apiserver for these handlers (C18-F3's guard):
+    # each handler's webhook carries its id in the URL and its declared operations in the rule
+    hooks = adm.build_webhooks(registry._webhooks.get_all_handlers(), resources=[resource], name_suffix="sfx",
+                               client_config={"url": "https://op.example/base/"})
+    by_url = {w["clientConfig"]["url"].rsplit("/", 1)[-1]: w for w in hooks}
+    for h in case["handlers"]:
+        w = by_url.get(h["id"])
+        rule_ops = None if w is None or not w["rules"] else w["rules"][0]["operations"]
+        if h["filter"] != "other-resource":
+            res.reqs.append(("ruleops", ["C18.ruleops", {"id": h["id"], "reason": h["reason"], "operations": h["operations"],
+                                                         "subresource": h["subresource"]}], ["ok", rule_ops]))
     for h in case["handlers"]:
         ran = h["id"] in log
         m = {"none": True, "when-true": True, "when-false": False, "other-resource": False,
@@ -1014,7 +1109,13 @@ async def eval_serve(env: dict, case: dict) -> Result:
             res.fail(f"mutating handler {h['id']} ran on DELETE without opting in",
                      {"site": "WebhooksRegistry.iter_handlers", "shape": "mutating handler ran on DELETE without opt-in"})
         if ran and hint_ok and sub_ok and m and not op_ok and not (mut_del and not opted_lenient):
-            res.fail(f"handler {h['id']} declared operations={h['operations']!r} but ran for operation {op!r}", SIG_OPS)
+            if case["webhook"] is None:
+                # reachable with a manually written webhook configuration (no handler id in the URL)
+                res.fail(f"handler {h['id']} declared operations={h['operations']!r} but ran for operation {op!r}", SIG_OPS)
+            else:
+                # the review names this handler's own webhook but violates that webhook's rules: an apiserver
+                # honouring kopf's managed configuration never sends it (guard of gate_spec_partial)
+                res.tags.append("hinted-review-outside-the-webhook-rules")
         if not ran and hint_ok and sub_ok and m and op_ok and (not mut_del or opted_strict):
             res.fail(f"handler {h['id']} matches the request but did not run",
                      {"site": "WebhooksRegistry.iter_handlers", "shape": "matching handler did not run"})
@@ -1036,6 +1137,8 @@ async def eval_serve(env: dict, case: dict) -> Result:
     if exc is not None:
         oracle_patch(res, body, content, fn_objs, None, exc)
         res.reqs.append(("apply(serve error)", ["C18.apply", body, content, fns_decl], ["err", err_tag(exc)]))
+        res.reqs.append(("serve", ["C18.serve", _entries(env, case, raised, labels_now), cj_all, body, content, fns_decl, []],
+                         ["err", err_tag(exc)]))
         res.tags.append("serve-raises")
         return res
     r = resp["response"]
@@ -1065,8 +1168,14 @@ async def eval_serve(env: dict, case: dict) -> Result:
     oracle_response(res, resp, raised_list, issued)
     if r.get("uid") != "uid1":
         res.fail("response uid differs from the request uid", {"site": "admission.build_response", "shape": "uid"})
-    impl = {"allowed": r.get("allowed"), "status": r.get("status"), "warnings": r.get("warnings")}
-    res.reqs.append(("response(serve)", ["C18.response", raised_list, issued], ["ok", impl]))
+    if ("patch" in r) != bool(ops) or (r.get("patchType") == "JSONPatch") != ("patch" in r):
+        res.fail("patch / patchType are not 'present exactly when there are operations'",
+                 {"site": "admission.build_response", "shape": "patch encoding"})
+    impl = _resp_view(r)
+    res.reqs.append(("response(serve)", ["C18.response", raised_list, issued, ops], ["ok", impl]))
+    res.reqs.append(("serve", ["C18.serve", _entries(env, case, raised, labels_now), cj_all, body, content, fns_decl, ops], ["ok", impl]))
+    if ops and not r.get("allowed"):
+        res.tags.append("patch-on-denial")
     res.tags += sorted({"err:" + e["kind"] for e in raised_list if e})
     res.tags.append("op:" + str(op))
     res.tags.append("sub:" + str(case["subresource"]))
